@@ -1012,9 +1012,11 @@ def mapReset (n : Node) (next : Nat) : Node × Nat :=
 
 /-- `field.optional` as `SparseDict.__delitem__` / `pop` read it -/
 def keyOptional (n : Node) (key : Str) : Option Bool :=
-  match findKid n.kids key with
-  | some c => some c.optional      -- `self[key].optional`: the INSTANCE (class attribute unless overridden)
-  | none => (fieldFor n.sch.subs key).map (fun f => f.info.optional)
+  -- `schema = self._field_schema_for(key)`: the FIELD decides; only for an undeclared key that
+  -- is nevertheless present is the member asked (`self[key].optional`)
+  match fieldFor n.sch.subs key with
+  | some f => some f.info.optional
+  | none => (findKid n.kids key).map Node.optional
 
 /-- one dict-protocol call on a Dict / SparseDict element -/
 def mapStep (n : Node) (op : MapOp) (next : Nat) : StepR :=
